@@ -83,9 +83,7 @@ Lemma cmp_u_items_rejects f fs gs l :
   cmp_one_u cfg_fixed ieq_u (CItems f) fs gs = Ok false.
 Proof. inst_u EqGP.cmp_items_rejects. Qed.
 Lemma cmp_u_url_rejects fs gs :
-  is_nil (get_item F_URL gs) = false ->
-  (is_nil (get_item F_URL fs) = true \/
-   iri_equ (lnk (get_item F_URL gs)) (lnk (get_item F_URL fs)) false = false) ->
+  is_nil (get_item F_URL gs) = false -> ieq_u (get_item F_URL fs) (get_item F_URL gs) = Ok false ->
   cmp_one_u cfg_fixed ieq_u CUrl fs gs = Ok false.
 Proof. inst_u EqGP.cmp_url_rejects. Qed.
 Lemma ieq_u_iris p a q b : is_nil (IIri p a) = false -> is_nil (IIri q b) = false ->
